@@ -1910,11 +1910,14 @@ pub fn verify_compatiblity<T: AbiExportable + ?Sized>(path: &str) -> Result<(), 
         let def = T::get_definition(version);
         let schema_file_name = Path::join(Path::new(path), format!("savefile_{}_{}.schema", def.name, version));
         if std::fs::metadata(&schema_file_name).is_ok() {
-            let previous_schema = load_file_noschema(&schema_file_name, 1)?;
+            // Files recorded by earlier releases carry data version 1 and still load.
+            let previous_schema = load_file_noschema(&schema_file_name, CURRENT_SAVEFILE_LIB_VERSION.into())?;
 
             def.verify_backward_compatible(version, &previous_schema, false)?;
         } else {
-            save_file_noschema(&schema_file_name, 1, &def)?;
+            // The definition must be written in the current schema format: format 1 cannot
+            // represent the receiver kind and the async_trait flag of a method.
+            save_file_noschema(&schema_file_name, CURRENT_SAVEFILE_LIB_VERSION.into(), &def)?;
         }
     }
     Ok(())
